@@ -561,6 +561,25 @@ def run(ctx):
         elif res != "bad":
             shutil.rmtree(root, ignore_errors=True)
     alias_inside_union_case()
+
+    # (iii-k) a map keyed by each primitive type the language accepts as a key (and by aliases of them), as a field, a step, stream items and a union case
+    def map_keys(kt):
+        key = kt if kt[0].islower() else "K%s" % kt
+        model = ("KLabel: string\nKCount: uint16\nKWhen: datetime\nKDay: date\n"
+                 "MkRec: !record\n  fields:\n    m: %s->int\n    o: (%s->string)?\n    v: (%s->float)*\n"
+                 "MkProto: !protocol\n  sequence:\n    r: MkRec\n    m: %s->MkRec\n    s: !stream\n      items: %s->int\n    u: !union {byKey: %s->int, n: int}\n" % ((key,) * 6))
+        root = os.path.join(ctx.workdir, "cases", "mapkey_%s" % kt)
+        shutil.rmtree(root, ignore_errors=True)
+        outs = ("cpp:\n  sourcesOutputDir: ../out/cpp\n  generateHDF5: false\n  generateCMakeLists: false\n  overrideArrayHeader: %s\npython:\n  outputDir: ../out/python\n"
+                "matlab:\n  outputDir: ../out/matlab\n" % cxx.ARRAY_HEADER)
+        common.write_tree(root, {"pkg/_package.yml": "namespace: MapKeys\n" + outs, "pkg/model.yml": model})
+        res = check_outputs(ctx, root, os.path.join(root, "pkg"), home, "maps keyed by %s (field, optional, vector items, step, stream items, union case)" % key, "mapkey:%s" % kt, full_cpp=True)
+        ctx.case(("map-key", kt))
+        ctx.count("map-key.%s" % res)
+        if res != "bad":
+            shutil.rmtree(root, ignore_errors=True)
+    pmap(map_keys, ["string", "int8", "uint8", "int16", "uint16", "int32", "uint32", "int64", "uint64", "size", "bool", "float32", "float64", "date", "time", "datetime",
+                    "complexfloat32", "complexfloat64", "Label", "Count", "When", "Day"], workers=6)
     import_graphs(ctx, home, quick)
 
     # (iv) init scaffolds
